@@ -588,7 +588,7 @@ func (fr *Frame) havocAllHeap() {
 		}
 		r.Trusted["while "+r.monitor.Name+" is held, code reached through calls (closer.Close, callbacks) does not modify the protected state (it cannot take the non-reentrant lock)"] = true
 	}
-	if !fr.noKeep && len(fr.st.locks) > 0 {
+	if (!fr.noKeep || fr.lockKeep) && len(fr.st.locks) > 0 {
 		if keep == nil {
 			keep = map[string]Term{}
 		}
